@@ -29,7 +29,12 @@ REQUIRED_COUNTERS = ["runs", "likelihood_calls_monitored", "rows_counted", "coun
 
 def cases(tier, seed):
     n = {"quick": 110, "thorough": 4000}[tier]
-    return [{"seed": [seed, 17, k]} for k in range(n)]
+    out = [{"seed": [seed, 17, k]} for k in range(n)]
+    # one very large batch (importance sampling with hundreds of thousands of draws is ordinary use): the figure must not depend
+    # on how many points a single call carries
+    for j in range({"quick": 2, "thorough": 6}[tier]):
+        out.append({"seed": [seed, 171, j], "large_batch": int([150_001, 262_144, 100_001, 400_000, 131_073, 1_000_003][j])})
+    return out
 
 
 def judge_probe(probe, reported, where, viol, counters):
@@ -63,6 +68,10 @@ def run_case(case):
     g = np.random.default_rng(case["seed"])
     cfg = boundary.gen_case_cfg(g)
     cfg["prior_nan_outside"] = False  # C10's input class; here the carried prior is compared with the -inf convention
+    if case.get("large_batch"):
+        cfg.update(sampler="importance", n=int(case["large_batch"]), xp=str(g.choice(["numpy", "torch"])), resume=False)
+        cfg["precond"] = {"preconditioning": None, "kwargs": {}}
+        counters["large_batch_runs"] += 1
     shown = {k: cfg.get(k) for k in ("sampler", "xp", "dtype", "n", "opts", "precond", "outside_mode", "recipe", "resume", "cut_below")}
     where = f"{shown}"
     import contextlib
